@@ -72,7 +72,11 @@ def expr_programs(tier):
               "c * c", "(c + 1) * ii", "-c", "iconj(c) * c", "max(x, y) + min(x, y)", "pow(x, 2) ** 2", "str(x) + str(y)", "upper(s + w)", "substr(s, 1, 1) + w",
               "isnull(n) and p", "isnull(n and p)", "typeof(x + y)", "int(d) + 1", "num(x) / 2", "bool(x) and p", "raw(2, 65).count()", "tab(2, x + y).count()",
               "x + y * z", "(x + y) * z", "x * y + z", "x * (y + z)", "x < y == p", "(x < y) == p", "x + 1 < y * 2 and p", "x & y == z", "(x & y) == z",
-              "x | y & z", "(x | y) & z", "x ^ y | z", "x == y != p", "p == (q != n)"]
+              "x | y & z", "(x | y) & z", "x ^ y | z", "x == y != p", "p == (q != n)",
+              '(s + w).concat("!")', "(s + w).at(1)", "(s + w).put(0, 65)", '(s + " " + w).at(3)', '(s + w).insert(0, "z")', "(s + w).delete(0)",
+              "(s + w).concat(w).count()", '(tup(1, "a"))@2', "(r)@2", "(t).at(0)", "(t.concat(1)).at(2)", '(raw("ab")).at(0)', "(s).count()",
+              "((s + w)).count()", "(s + w).count() + (w + s).count()", "(s + w).at(0) + (w + s).at(0)", "-(t.at(0) + 1)", "(t.at(0) + 1) * (t.at(1) - 1)",
+              '(upper(s) + lower(w)).count()', "(c * c) + ii", "(c + 1)", "(x + y).5", "(d * 2.0)", "(s + w) + (w + s)", '(s + w) == (w + s)']
     for e in chains:
         if emit(e):
             yield e
@@ -96,7 +100,7 @@ def corpus(tier):
         yield "literal", "", "v = %s; print v;" % repr(d)
         yield "literal", "", "v = 1.0 + %s * 2; print v;" % repr(abs(d))
     for e in expr_programs(tier):
-        yield "expr", PRE, "rr = %s; print rr;" % e
+        yield "expr", PRE, "rr = %s; print rr; print s w x y;" % e
     # statement programs: nesting grammar (C06) and error programs (C07)
     n = 0
     for prog in c06.nest_programs("quick"):
@@ -141,6 +145,14 @@ def corpus(tier):
     ]
     for m in misc:
         yield "misc", "", m
+    # loop headers: every order with bounds in both directions (the order keyword matters only for some bounds)
+    for o in ("", "asc", "desc"):
+        for (b, e) in ((1, 3), (3, 1), (2, 2), (0, -1)):
+            for st in ("", "step 2"):
+                yield "for-order", "", "n = 0; for i in %d to %d %s %s loop print i; n = n + 1; end loop; print n;" % (b, e, st, o)
+                yield "for-order", "", "lo = %d; hi = %d; for i in lo to hi - 1 %s %s loop print i; end loop; print \"e\";" % (b, e, st, o)
+        yield "forall-order", "", "t = tab(0, 0); t.concat(1).concat(2).concat(3); forall e in t %s loop print e; end loop;" % o
+        yield "forall-order", "", 'function fo(t) return integer is begin n = 0; forall e in t %s loop n = n * 10 + e; end loop; return n; end; print fo(tab(1, 1).concat(2).concat(3));' % o
 
 
 def gen_factory(tier):
